@@ -214,6 +214,9 @@ func verifDump(d *Dependency) string {
 	return out
 }
 
+// VerifDump exposes the canonical dump to the harnesses of other packages.
+func VerifDump(d *Dependency) string { return verifDump(d) }
+
 // VerifC04Accept: s is a field built from the Policy grammar; expect is the canonical dump of the
 // structure it denotes.  0 = parsed to exactly that structure (by Parse and by UnmarshalControl).
 func VerifC04Accept(s, expect string) int {
